@@ -24,6 +24,7 @@ struct Case {
     limits: Vec<(u8, u32, bool, u32)>,
     dup_expected: bool,
     dup_rejected: bool,
+    bare_nonstandard: bool,
 }
 
 fn ctx_entries<Ctx: CtxInfo>(fix: &Fix, ms: &Miniscript<Pk, Ctx>, s: &str) -> (Vec<(&'static str, bool)>, bool)
@@ -83,6 +84,12 @@ fn gen_ctx<Ctx: CtxInfo>(fix: &Fix, tier: &str, seed: u64, maxn: usize, cap: usi
     let mut ents = enumerate::<Ctx>(fix, Ctx::ID, maxn);
     ents.sort_by_key(|e| (e.nodes.min(3), hash_str(&e.class, if tier == "thorough" { seed } else { 0 })));
     ents.truncate(cap);
+    if Ctx::ID == crate::vm::BARE {
+        // multisigs of more than three keys: not a standard bare form
+        for t in [T::Multi(1, 4), T::Multi(2, 4), T::Multi(3, 4), T::SMulti(1, 4), T::SMulti(2, 4)] {
+            ents.push(super::Entry { nodes: 1, class: format!("{:?}", t), base: spec::B, t });
+        }
+    }
     for e in &ents {
         let g = match build_shape::<Ctx>(fix, &e.t, PALETTES[0], true) {
             Ok(g) => g,
@@ -143,7 +150,12 @@ fn gen_ctx<Ctx: CtxInfo>(fix: &Fix, tier: &str, seed: u64, maxn: usize, cap: usi
             samples.push(format!("{{\"term\": \"{}\", \"ctx\": {}, \"type\": \"{}\", \"accepted_by\": [{}]}}", json_escape(&g.name), g.ctx, g.ty_str, entries.iter().filter(|x| x.1).map(|x| format!("\"{}\"", x.0)).collect::<Vec<_>>().join(",")));
         }
         names.push(g.name.clone());
-        cases.push(Case { shape: idx, entries, desc_parser_ok: desc_ok, ms_consensus_parser_ok: cons_ok, consensus_reject_if, sigless_rejected, limits, dup_expected, dup_rejected });
+        let bare_nonstandard = !match &e.t {
+            T::C(x) => matches!(**x, T::PkK | T::PkH),
+            T::Multi(_, n) | T::SMulti(_, n) => *n <= 3,
+            _ => false,
+        };
+        cases.push(Case { shape: idx, entries, desc_parser_ok: desc_ok, ms_consensus_parser_ok: cons_ok, consensus_reject_if, sigless_rejected, limits, dup_expected, dup_rejected, bare_nonstandard });
         let _ = (g.base == spec::B,);
     }
 }
@@ -170,7 +182,7 @@ pub fn generate(fix: &Fix, tier: &str, seed: u64, out_dir: &str) {
         for l in &c.limits {
             let _ = write!(src, "({},{},{},{}),", l.0, l.1, l.2, l.3);
         }
-        let _ = writeln!(src, "],dup_expected:{},dup_rejected:{}}};", c.dup_expected, c.dup_rejected);
+        let _ = writeln!(src, "],dup_expected:{},dup_rejected:{},bare_nonstandard:{}}};", c.dup_expected, c.dup_rejected, c.bare_nonstandard);
     }
     for (bi, chunk) in cases.chunks(6).enumerate() {
         let mut unwind = 24usize;
